@@ -9,7 +9,7 @@ FUNCTIONS = ['sexp_utf8_initial_byte_count', 'sexp_utf8_char_byte_count', 'sexp_
              'sexp_string_utf8_length', 'sexp_string_index_to_cursor', 'sexp_string_cursor_to_index', 'sexp_string_utf8_index_ref',
              'sexp_string_utf8_index_set', 'sexp_string_utf8_set', 'sexp_substring_op', 'sexp_utf8_substring_op',
              'sexp_string_concatenate_op', 'sexp_make_string_op', 'sexp_make_bytes_op']
-US = {'rfc_dec_all.0': 8, 'sexp_string_utf8_length.0': 12, 'sexp_string_index_to_cursor.0': 8, 'sexp_make_bytes_op.0': 40}
+US = {'dec_result.0': 20, 'rfc_dec_all.0': 8, 'sexp_string_utf8_length.0': 12, 'sexp_string_index_to_cursor.0': 8, 'sexp_make_bytes_op.0': 40}
 
 
 def queries(tier):
@@ -18,17 +18,22 @@ def queries(tier):
     nch = 2 if tier == 'quick' else 3
     store = 8 if tier == 'quick' else 12
 
-    def q(name, defs, **kw):
+    def q(name, defs, nch=nch, store=store, **kw):
         d = dict(defs, NCH=nch, STORE=store)
-        qs.append(Query(name=name, harness='C12_string.c', units=UNITS, unit_defs=UD, defs=d, unwind=8, unwindset=US,
+        ud = dict(UD, KIT_MAX_bytes=8 * nch + 2)
+        us = dict(US, **{'memcpy.1': 8 * nch + 3, 'memcpy.0': 4, 'memset.1': 8 * nch + 3, 'memset.0': 4, 'memmove.2': 8 * nch + 3, 'memmove.3': 8 * nch + 3})
+        qs.append(Query(name=name, harness='C12_string.c', units=UNITS, unit_defs=ud, defs=d, unwind=8, unwindset=us,
                         remove_bodies=EXC, cap=cap, backends=['cadical', 'minisat', 'kissat'], **kw))
     q('encode/decode[all scalar values]', {'OP': 1})
     q('string-ref[any string, any index]', {'OP': 2})
-    q('string-set![any string, any index, any char]', {'OP': 3})
-    q('string-set![offset 0]', {'OP': 3, 'OFFSET0': 1})
     q('index<->cursor', {'OP': 4})
-    q('substring', {'OP': 5})
-    q('string-concatenate', {'OP': 6})
+    # the allocating operations have data-dependent result sizes: 1-character strings in the quick tier,
+    # 2 and 3 characters (4-10 min per query) in the thorough tier
+    sizes = [(1, 5)] if tier == 'quick' else [(1, 5), (2, 8), (3, 12)]
+    for n, st in sizes:
+        q('string-set![<=%d chars, any offset, any index, any char]' % n, {'OP': 3}, nch=n, store=st)
+        q('substring[<=%d chars]' % n, {'OP': 5}, nch=n, store=st)
+        q('string-concatenate[<=%d chars each]' % n, {'OP': 6}, nch=n, store=st)
     return qs
 
 
